@@ -220,3 +220,15 @@ func Expected(q *Q, docs []*RDoc, analyse func(field, text string) []string) (mu
 	}
 	return
 }
+
+// ShapeAbs is Shape with every leaf abstracted to "·" (class names for compound-searcher defects).
+func ShapeAbs(q *Q) string {
+	abs := func(x *Q) string { return ShapeAbs(x) }
+	switch q.Kind {
+	case "conj", "disj":
+		return fmt.Sprintf("%s%d(%s)", q.Kind, q.DMin, list(q.Subs, abs))
+	case "boolean":
+		return fmt.Sprintf("bool(m{%s} s%d{%s} n{%s} f{%s})", list(q.Must, abs), q.ShouldMin, list(q.Should, abs), list(q.MustNot, abs), list(q.Filter, abs))
+	}
+	return "·"
+}
